@@ -70,7 +70,7 @@ struct Kern {
 
         bool op(const Json &o)
         {
-                int kind = (int) ((uint64_t) o.ai(0) % 11);
+                int kind = (int) ((uint64_t) o.ai(0) % 12);
                 size_t len = (size_t) ((uint64_t) o.ai(1) % 70000);
                 int place = (int) o.ai(2);
                 uint64_t seed = (uint64_t) o.ai(3);
@@ -422,6 +422,63 @@ struct Kern {
                         }
                         break;
                 }
+                case 11: { // streaming deflate primed with a dictionary + inflate primed with the same: the dictionary hash kernels
+                           // (isal_deflate_hash_lvl0..3) and the level-3 map builder are reached only this way
+                        uint64_t aux = seed >> 3;
+                        size_t l = len % 20000, dl = 1 + (size_t) (aux >> 7) % 6000;
+                        int level = sub % 4;
+                        static const uint32_t lbsz[4] = { 0, ISAL_DEF_LVL1_DEFAULT, ISAL_DEF_LVL2_DEFAULT, ISAL_DEF_LVL3_DEFAULT };
+                        Slot *s = buf(l, place, "dict_rt_in", r), *dc = buf(dl, place >> 1, "dict", r);
+                        Slot *zs = g_arena.alloc(sizeof(struct isal_zstream), PLACE_END, "zstream", fill + 8, 16), *o = g_arena.alloc(l + l / 8 + 300, PLACE_END, "rt_comp", fill + 9, 1);
+                        Slot *is = g_arena.alloc(sizeof(struct inflate_state), PLACE_END, "inflate_state", fill + 10, 8), *d = g_arena.alloc(l, PLACE_END, "rt_out", fill + 11, 1);
+                        Slot *lb = level ? g_arena.alloc(lbsz[level], PLACE_END, "level_buf", fill + 12, 16) : nullptr;
+                        if (!s || !dc || !zs || !o || !is || !d || (level && !lb))
+                                return false;
+                        for (size_t i = 0; i < dl; i++)
+                                dc->data[i] = (uint8_t) ('a' + dc->data[i] % 5);
+                        for (size_t i = 0; i < l; i++) // the data shares long runs with the dictionary
+                                s->data[i] = (sub & 8) && (i / 64) % 3 ? s->data[i] : dc->data[(i + (aux & 63)) % dl];
+                        struct isal_zstream *z = (struct isal_zstream *) zs->data;
+                        struct inflate_state *st = (struct inflate_state *) is->data;
+                        int cr = 0, dr = 0, sd = 0, isd = 0, calls = 0;
+                        if (GUARDED(gc, {
+                                    isal_deflate_init(z);
+                                    z->level = level;
+                                    z->level_buf = lb ? lb->data : nullptr;
+                                    z->level_buf_size = lb ? (uint32_t) lb->len : 0;
+                                    z->gzip_flag = (sub & 4) ? IGZIP_GZIP : IGZIP_DEFLATE;
+                                    z->flush = NO_FLUSH;
+                                    z->end_of_stream = 1;
+                                    z->next_in = s->data;
+                                    z->avail_in = (uint32_t) l;
+                                    z->next_out = o->data;
+                                    z->avail_out = (uint32_t) o->len;
+                                    sd = isal_deflate_set_dict(z, dc->data, (uint32_t) dl);
+                                    do
+                                            cr = isal_deflate(z);
+                                    while (cr == COMP_OK && z->internal_state.state != ZSTATE_END && ++calls < 8);
+                                    isal_inflate_init(st);
+                                    st->crc_flag = (sub & 4) ? ISAL_GZIP : ISAL_DEFLATE;
+                                    isd = isal_inflate_set_dict(st, dc->data, (uint32_t) dl);
+                                    st->next_in = o->data;
+                                    st->avail_in = z->total_out;
+                                    st->next_out = d->data;
+                                    st->avail_out = (uint32_t) l;
+                                    dr = cr == 0 ? isal_inflate(st) : -99;
+                            }))
+                                return fault("dictionary deflate/inflate round trip");
+                        bool fin = z->internal_state.state == ZSTATE_END && st->block_state == ISAL_BLOCK_FINISH;
+                        if (g_kern_portable)
+                                h.rec("dict_roundtrip", { (int64_t) l, (int64_t) dl, level, sd, isd, cr, dr, fin, (int64_t) hash_bytes(d->data, l) });
+                        else
+                                h.rec("dict_roundtrip", { (int64_t) l, (int64_t) dl, level, sd, isd, cr, dr, fin, z->total_out, (int64_t) hash_bytes(o->data, cr == 0 ? z->total_out : 0) });
+                        h.sigmix(0xd1c7 ^ (uint64_t) level << 8 ^ (l % 257) << 16);
+                        if (sd != 0 || isd != 0 || cr != 0 || dr != 0 || !fin || memcmp(d->data, s->data, l)) {
+                                rr.fail("C16.roundtrip", strf("deflate with a %zu-byte dictionary (set_dict %d, ret %d, level %d) + inflate with the same dictionary (set_dict %d, ret %d, finished %d) of %zu bytes does not round-trip", dl, sd, cr, level, isd, dr, (int) fin, l));
+                                return false;
+                        }
+                        break;
+                }
                 default: { // one-shot deflate + inflate round trip through the dispatcher (kernels selected per CPU)
                         size_t l = len % 30000;
                         Slot *s = buf(l, place, "rt_in", r), *zs = g_arena.alloc(sizeof(struct isal_zstream), PLACE_END, "zstream", fill + 8, 16), *o = g_arena.alloc(l + l / 8 + 300, PLACE_END, "rt_comp", fill + 9, 1);
@@ -499,7 +556,7 @@ Json gen_kern_ops(Rng &r, int nops)
         for (int i = 0; i < nops; i++) {
                 Json o = Json::arr();
                 uint32_t len = r.chance(1, 2) ? r.pick(lens) : (uint32_t) r.logsize(69999);
-                o.push((int) r.below(11)).push(len).push((int) r.below(4)).push(r.u64() >> 20).push((int) r.below(64));
+                o.push((int) r.below(12)).push(len).push((int) r.below(4)).push(r.u64() >> 20).push((int) r.below(64));
                 ops.push(o);
         }
         return ops;
